@@ -482,6 +482,13 @@ class Engine:
                 args.append(('pin', ('ref', (('P', name),))))
             else:
                 args.append(('param', name))
+        # what every calling context knows about the caller's own (unlinked) node: see rl.entry_contexts
+        for pname, (sf, enum, allowed) in (getattr(self.F, 'entry_ctx', None) or {}).get(fn['path'], {}).items():
+            key = ('discr', ('init', (('P', pname), 'data', sf)))
+            dom = self.variants_of(enum)
+            for v in dom:
+                if v not in allowed:
+                    self._set_fact(st, key, v, False, dom)
         out = []
         for st2, rv in self.run_fn(fn, args, st):
             self.stats['paths'] += 1
